@@ -214,14 +214,16 @@ def on_table_read(eng, owner_ref, field, key_v, entry_v, present):
 
 
 def assert_invariant(eng, ref, where, props=None, exempt=()):
-    """prove the object invariant (scalar clauses + every table clause for a skolem key)"""
+    """prove the object invariant (scalar clauses + every table clause for a skolem key).  The clauses are submitted as ONE
+    batched obligation (conjunction); only if the batch is not discharged each clause is checked on its own, so a failure
+    is still reported under the clause's name while the common case costs a single query."""
     k = KLASSES[ref.ty[1]]
     fr = self_frame(eng, ref)
+    parts = []
     for nm, e in k.invariant.items():
         if nm in exempt:
             continue
-        eng.prove('objinv.%s:%s' % (where, nm), eng.pure_bool(e, fr), kind='objinv', props=props or k.props,
-                  assume_after=False)
+        parts.append(('objinv.%s:%s' % (where, nm), eng.pure_bool(e, fr)))
     for field, (var, clauses) in k.tables.items():
         d = heap_read_raw(eng, ref, field)
         kty, vty = d.ty[1], d.ty[2]
@@ -250,8 +252,12 @@ def assert_invariant(eng, ref, where, props=None, exempt=()):
                 eng.st.heap = cur
         for nm in clauses:
             p = table_entry_pred(eng, k, ref, field, sk, entry, nm)
-            eng.prove('objinv.%s:%s.%s' % (where, field, nm), z3.Implies(present, p), kind='objinv',
-                      props=props or k.props, assume_after=False)
+            parts.append(('objinv.%s:%s.%s' % (where, field, nm), z3.Implies(present, p)))
+    if not parts:
+        return
+    o = eng.prove('objinv.%s:*' % where, z3.And([c_ for _, c_ in parts]), kind='objinv', props=props or k.props,
+                  assume_after=False)
+    o.parts = parts
 
 
 def heap_read_raw(eng, ref, field):
